@@ -4,11 +4,43 @@
 package gomodel
 
 import (
+	"bytes"
 	"fmt"
 	"reflect"
 	"sort"
 	"strconv"
 )
+
+// Types with marshalling methods (GoEnc.tla: marsh, textm, redir, trust).
+type VMarsh struct {
+	Text string
+	Fail bool
+}
+
+func (m VMarsh) MarshalJSON() ([]byte, error) {
+	if m.Fail {
+		return nil, fmt.Errorf("VMarsh fails")
+	}
+	return []byte(m.Text), nil
+}
+
+type VText struct{ Text string }
+
+func (t VText) MarshalText() ([]byte, error) { return []byte(t.Text), nil }
+
+type VRedir struct{ V interface{} }
+
+func (r VRedir) RedirectMarshalJSON() (interface{}, error) { return r.V, nil }
+
+type VTrust struct{ B string }
+
+func (t VTrust) TrustMarshalJSON(buf *bytes.Buffer) error {
+	buf.WriteString(t.B)
+	return nil
+}
+
+// NumberType is the codec's Number type (a string type); set by the program that links the codec.
+var NumberType = reflect.TypeOf("")
 
 type M = map[string]interface{}
 
@@ -96,6 +128,16 @@ func TypeOf(g M) (reflect.Type, error) {
 			return nil, err
 		}
 		return reflect.PointerTo(et), nil
+	case "number":
+		return NumberType, nil
+	case "marsh":
+		return reflect.TypeOf(VMarsh{}), nil
+	case "textm":
+		return reflect.TypeOf(VText{}), nil
+	case "redir":
+		return reflect.TypeOf(VRedir{}), nil
+	case "trust":
+		return reflect.TypeOf(VTrust{}), nil
 	case "struct":
 		var fields []reflect.StructField
 		for _, e := range g["f"].([]interface{}) {
@@ -113,6 +155,9 @@ func TypeOf(g M) (reflect.Type, error) {
 				tag := string(unbytes(f["tname"]))
 				if f["dash"].(bool) {
 					tag = "-"
+				}
+				if om, _ := f["omitempty"].(bool); om && !f["dash"].(bool) {
+					tag += ",omitempty"
 				}
 				if f["str"].(bool) && !f["dash"].(bool) {
 					tag += ",string"
@@ -226,3 +271,178 @@ func dynamic(v reflect.Value) M {
 	}
 	return M{"g": "unknown:" + v.Kind().String()}
 }
+
+// Build constructs the Go value the model g describes; its static type is TypeOf(t) where t is the model of the type
+// (for a value held by an interface{}, t is Iface() and the dynamic type follows from g).
+func Build(g M, t M) (reflect.Value, error) {
+	rt, err := TypeOf(t)
+	if err != nil {
+		return reflect.Value{}, err
+	}
+	out := reflect.New(rt).Elem()
+	if t["g"] == "nil" {
+		if g["g"] == "nil" {
+			return out, nil
+		}
+		if g["g"] == "iface" { // the explicit wrapper of a non-nil interface value
+			g = g["v"].(M)
+		}
+		dv, err := Build(g, typeOfValue(g))
+		if err != nil {
+			return dv, err
+		}
+		out.Set(dv)
+		return out, nil
+	}
+	switch g["g"] {
+	case "bool":
+		out.SetBool(g["b"].(bool))
+	case "int":
+		out.SetInt(int64(g["i"].(float64)))
+	case "float":
+		f, err := strconv.ParseFloat(string(unbytes(g["lit"])), 64)
+		if err != nil {
+			return out, err
+		}
+		out.SetFloat(f)
+	case "str":
+		out.SetString(string(unbytes(g["bytes"])))
+	case "number":
+		out.SetString(string(unbytes(g["lit"])))
+	case "bytes":
+		if !g["nil"].(bool) {
+			out.SetBytes(append([]byte{}, unbytes(g["b"])...))
+		}
+	case "marsh":
+		out.Set(reflect.ValueOf(VMarsh{Text: string(unbytes(g["text"])), Fail: g["fail"].(bool)}))
+	case "textm":
+		out.Set(reflect.ValueOf(VText{Text: string(unbytes(g["text"]))}))
+	case "trust":
+		out.Set(reflect.ValueOf(VTrust{B: string(unbytes(g["b"]))}))
+	case "redir":
+		iv, err := Build(g["v"].(M), Iface())
+		if err != nil {
+			return out, err
+		}
+		var x interface{}
+		if !iv.IsNil() {
+			x = iv.Interface()
+		}
+		out.Set(reflect.ValueOf(VRedir{V: x}))
+	case "slice", "tslice":
+		if g["nil"].(bool) {
+			return out, nil
+		}
+		et := Iface()
+		if g["g"] == "tslice" {
+			et = t["z"].(M)
+		}
+		sl := reflect.MakeSlice(rt, 0, 4)
+		for _, e := range g["e"].([]interface{}) {
+			v, err := Build(e.(M), et)
+			if err != nil {
+				return out, err
+			}
+			sl = reflect.Append(sl, v)
+		}
+		out.Set(sl)
+	case "map", "tmap":
+		if g["nil"].(bool) {
+			return out, nil
+		}
+		et := Iface()
+		if g["g"] == "tmap" {
+			et = t["z"].(M)
+		}
+		m := reflect.MakeMap(rt)
+		for _, e := range g["m"].([]interface{}) {
+			kv := e.(M)
+			v, err := Build(kv["v"].(M), et)
+			if err != nil {
+				return out, err
+			}
+			m.SetMapIndex(reflect.ValueOf(string(unbytes(kv["k"]))), v)
+		}
+		out.Set(m)
+	case "ptr":
+		if g["nil"].(bool) {
+			return out, nil
+		}
+		v, err := Build(g["v"].(M), t["v"].(M))
+		if err != nil {
+			return out, err
+		}
+		p := reflect.New(rt.Elem())
+		p.Elem().Set(v)
+		out.Set(p)
+	case "struct":
+		tf := t["f"].([]interface{})
+		for i, e := range g["f"].([]interface{}) {
+			if !out.Field(i).CanSet() {
+				continue
+			}
+			v, err := Build(e.(M)["v"].(M), tf[i].(M)["v"].(M))
+			if err != nil {
+				return out, err
+			}
+			out.Field(i).Set(v)
+		}
+	default:
+		return out, fmt.Errorf("cannot build %v", g["g"])
+	}
+	return out, nil
+}
+
+// typeOfValue: the model of the static type of a value model (its zero value)
+func typeOfValue(g M) M {
+	switch g["g"] {
+	case "nil", "iface":
+		return Iface()
+	case "bool":
+		return Bool()
+	case "int":
+		return Int()
+	case "float":
+		return Float()
+	case "str":
+		return Str()
+	case "number":
+		return M{"g": "number", "lit": []interface{}{}}
+	case "bytes":
+		return ByteSlice()
+	case "slice":
+		return Slice()
+	case "map":
+		return Map()
+	case "tslice":
+		return TSlice(g["z"].(M))
+	case "tmap":
+		return TMap(g["z"].(M))
+	case "ptr":
+		return Ptr(typeOfValue(g["v"].(M)))
+	case "marsh":
+		return M{"g": "marsh", "text": []interface{}{}, "fail": false}
+	case "textm":
+		return M{"g": "textm", "text": []interface{}{}}
+	case "redir":
+		return M{"g": "redir", "v": Iface()}
+	case "trust":
+		return M{"g": "trust", "b": []interface{}{}}
+	case "struct":
+		fs := []interface{}{}
+		for _, e := range g["f"].([]interface{}) {
+			f := e.(M)
+			c := M{}
+			for k, x := range f {
+				c[k] = x
+			}
+			c["v"] = typeOfValue(f["v"].(M))
+			fs = append(fs, c)
+		}
+		return M{"g": "struct", "f": fs}
+	}
+	return Iface()
+}
+
+// TypeOfValue is typeOfValue for callers outside the package.
+func TypeOfValue(g M) M { return typeOfValue(g) }
